@@ -47,7 +47,7 @@ array"); numpy.int64 arguments (a JaqalError at build time is accepted, as in c0
 right); what a circuit means when its statements are rebuilt against ANOTHER table; pickling.
 
     PYTHONPATH=/verif /venv/bin/python -m harness.agents.c03_traps [--seed S] [--count N] [--thorough]
-    recommended: quick n=300, thorough n=6000.
+    recommended: quick n=600 (about 670 sessions, 2500 judged reads, 10 - 13 s), thorough n=6000 (about 6300 sessions, 75 - 85 s).
 """
 import argparse
 import copy as pycopy
@@ -1737,6 +1737,9 @@ def shrink(steps, budget=30):
     cur = list(steps)
     i = len(cur) - 1
     while i >= 0 and budget > 0:
+        if cur[i][0].startswith("fail"):  # what a failing call leaves behind in the process cannot be undone: keep it
+            i -= 1
+            continue
         cand = cur[:i] + cur[i + 1:]
         budget -= 1
         try:
@@ -1766,6 +1769,7 @@ def run(seed: int, n: int, driver: str = DEFAULT_DRIVER, thorough: bool = False)
     rng = random.Random(seed * 7919 + (1 if thorough else 0))
     oracle = {o: {"cases": 0, "failures": []} for o in ORACLES}
     dist, samples, distinct = {}, [], set()
+    tainted = None
     jobs = sweep_cases(rng, thorough)
     dist["sweep_sessions"] = len(jobs)
     themes = [t for t, w in WEIGHTS for _ in range(w)]
@@ -1811,13 +1815,22 @@ def run(seed: int, n: int, driver: str = DEFAULT_DRIVER, thorough: bool = False)
         st2, s2 = run_session(small)
         if st2 != "fail":
             small, s2 = steps, s
-        o["failures"].append({"case": {"theme": theme, "steps": small}, "detail": detail_of(small, s2)})
+        case = {"theme": theme, "steps": small}
+        has_fail = any(x[0].startswith("fail") for x in small)
+        if has_fail and tainted is None:
+            tainted = small
+        elif not has_fail and tainted is not None:
+            # an earlier session with a failing call went wrong in this process: this one may only fail after it
+            case["prelude"] = tainted
+        o["failures"].append({"case": case, "detail": detail_of(small, s2) + (" | after the session in `prelude`" if "prelude" in case else "")})
     if not samples and jobs:
         samples.append({"theme": "numeric_form", "steps": s_numeric(random.Random(seed))})
     return {"corr": {}, "oracle": oracle, "distribution": dist, "samples": samples, "nontrivial": len(distinct)}
 
 
 def replay(case: dict, driver: str = DEFAULT_DRIVER) -> dict:
+    if case.get("prelude"):
+        run_session(case["prelude"])
     status, s = run_session(case["steps"])
     if status == "ok":
         return {"oracle_ok": True, "detail": f"{s.judged} judged reads agree with the reference", "model": None, "impl": None}
